@@ -11,6 +11,10 @@ calls from package frames into numpy's legacy global functions, `default_rng()` 
 `PCG64()` / `SeedSequence()` without a seed, and the `random` module.
 One Hamiltonian workload uses the shipped refresh's documented `forced` option; seeds
 include pairs that collide under a 32-, 63- or 64-bit truncation.
+Further twins with the same seed must give the same stream, because they are 'the same configuration' reached
+another way: a simulation built with other settings and brought to the workload's by re-assigning the documented
+attributes; one whose settings are assigned other values in mid-run and at once put back; and one whose first plain
+moves are handed to the driver's constructor instead of add_move (same names, order and settings).
 """
 from __future__ import annotations
 
@@ -35,7 +39,7 @@ ASSUMPTIONS = [
     "the calculators are deterministic functions of the configuration (harness calculators)",
     "PCG64 accepts any non-negative integer seed; seeds tested: 0, 1, 2**32-1, 2**63, 2**64+1 (pairs that collide under a 32-, 63- or 64-bit truncation) and seeds derived from VERIF_SEED",
 ]
-REQUIRED = {"reassigned_twins_compared": 30, "twin_runs_compared": 55, "fresh_process_twins": 6, "seed0_runs": 15, "steps_compared": 1400, "distinct_seed_pairs": 20, "tripwire_armed": 1}
+REQUIRED = {"constructor_versus_add_move_twins": 5, "reassigned_twins_compared": 30, "twin_runs_compared": 55, "fresh_process_twins": 6, "seed0_runs": 15, "steps_compared": 1400, "distinct_seed_pairs": 20, "tripwire_armed": 1}
 SHARD_TIMEOUT = {"quick": 900, "thorough": 3000}
 
 TRIP: dict = {"calls": []}
@@ -314,6 +318,40 @@ def run(spec):
         rec.count("steps_compared", steps)
         if seed == 0:
             rec.count("seed0_runs")
+        if si == 1 and not spec.get("nseeds") and w["driver"] in ("Canonical", "Isobaric", "Isotension", "GrandCanonical"):
+            # two public ways in: the first plain displacement / cell / exchange moves handed to the driver's constructor
+            # (default_displacement_move, default_cell_move, default_exchange_move) versus added with add_move under the
+            # same names, in the same order, with the same settings: the same configuration, the same trajectory
+            try:
+                import copy
+
+                slots = {"D": "default_displacement_move"}
+                if w["driver"] in ("Isobaric", "Isotension"):
+                    slots["C"] = "default_cell_move"
+                if w["driver"] == "GrandCanonical":
+                    slots["E"] = "default_exchange_move"
+                wv = copy.deepcopy(w)
+                first, rest, taken = [], [], set()
+                for e in wv.get("table", []):
+                    t = e["move"].get("t")
+                    if t in slots and t not in taken:
+                        taken.add(t)
+                        e["name"] = slots[t]
+                        first.append(e)
+                    else:
+                        rest.append(e)
+                if first:
+                    first.sort(key=lambda e: list(slots.values()).index(e["name"]))
+                    wv["table"] = first + rest
+                    sa, _ = run_stream(wv, seed, steps)
+                    sb, _ = run_stream({**copy.deepcopy(wv), "ctor_defaults": True}, seed, steps)
+                    rec.evaluations += 1
+                    rec.count("constructor_versus_add_move_twins")
+                    dd = first_diff(sa, sb)
+                    if dd is not None:
+                        rec.viol(f"C06/constructor-moves-versus-add_move-differ/{w['driver']}", f"moves handed to the constructor and the same moves added with add_move under the same names give different trajectories (same seed {seed}), first at step {dd}", {"workload": spec["name"], "driver": w["driver"], "seed": seed, "first_divergent_step": dd})
+            except Exception as ex:  # noqa: BLE001
+                rec.viol(f"C06/raised/{w['driver']}/{type(ex).__name__}", f"building through the constructor's default-move parameters raised {type(ex).__name__}: {ex}", {"workload": spec["name"], "seed": seed})
         if si in (0, 5) and not spec.get("nseeds"):
             # "the same configuration" reached another way: built with other settings, then every setting re-assigned
             # through the documented attributes (temperature, pressure, stress, chemical potential, step lengths, weights,
